@@ -1,0 +1,46 @@
+//go:build verif
+
+// Contracts for package crypto, checked by /verif/govc (comment-only; compiled only with -tags verif).
+// The pairing / curve arithmetic itself is external (kyber, go-ethereum): what is checked here is the thin layer
+// canopy puts around it - that every "valid" answer rests on a verification of exactly the submitted key set,
+// message and signature, and that signer counts come from the library's own notion of an enabled participant.
+package crypto
+
+// ---- assumed behaviour of the kyber mask and BDN scheme -----------------------------------------------------------
+//   maskCount(m): number of participants enabled in mask m (bits beyond the participant list do not count)
+//   maskAgg(m):   identity of the aggregate public key of the participants enabled in m
+//   pointId(p):   identity of a curve point
+//   blsPairingOK(k, msg, sig): the BDN pairing check of sig over msg under aggregate key k
+//@ ghost maskCount(m *sign.Mask) int
+//@ ghost maskAgg(m *sign.Mask) int
+//@ spec func pointId(p kyber.Point) int
+//@ spec func blsPairingOK(k int, msg BSeq, sig BSeq) bool
+//@ func (*github.com/drand/kyber/sign.Mask).CountEnabled
+//@   trusted
+//@   pure
+//@   ensures result == maskCount(arg0) && result >= 0
+//@ func (*github.com/drand/kyber/sign/bdn.Scheme).AggregatePublicKeys
+//@   trusted
+//@   pure
+//@   ensures pointId(result0) == maskAgg(arg1)
+//@ func (*github.com/drand/kyber/sign/bdn.Scheme).Verify
+//@   trusted
+//@   pure
+//@   ensures isnil(result) == blsPairingOK(pointId(arg1), bytes(arg2), bytes(arg3))
+
+// ---- C02 / C05: a multi-key says "valid" only after the pairing check of this very call -----------------------
+// (for the key aggregated from the CURRENT mask, the submitted message and signature) and only if the number of
+// enabled participants - as the mask counts them - reaches the threshold
+//@ func (*BLS12381MultiPublicKey).VerifyBytes
+//@   ensures[verified] result ==> blsPairingOK(maskAgg(b.mask), bytes(msg), bytes(sig))
+//@   ensures[threshold] result ==> b.threshold == 0 || maskCount(b.mask) % 4294967296 >= b.threshold
+//@ func (*BLS12381MultiPublicKey).EnabledSignerCount
+//@   ensures[count] result == maskCount(b.mask)
+
+// ---- C06: what reaches the secp256k1 verifier is the submitted signature, byte for byte -----------------------
+// (the library accepts exactly one 64-byte form; trimming or padding here would give one signed content several
+// valid encodings - and each encoding a fresh transaction hash)
+//@ func (*SECP256K1PublicKey).VerifyBytes
+//@   callsite VerifySignature requires[raw] arg2 == sig
+//@ func (*ETHSECP256K1PublicKey).VerifyBytes
+//@   callsite VerifySignature requires[raw] arg2 == sig
